@@ -33,6 +33,9 @@ func errTok(err error) string {
 		return "err:ErrKVPendingTransfer"
 	case errors.Is(err, context.DeadlineExceeded):
 		return "err:deadline"
+	case errors.Is(err, chord.ErrKVSimpleConflict):
+		// documented outcome of Put/Delete racing with another request on the same key: no effect ("conflict")
+		return "err:ErrKVSimpleConflict"
 	}
 	return ringh.ErrName(err)
 }
